@@ -226,4 +226,114 @@ theorem spec_load_settled (W : World) (strict : Bool) (hN : NoneExact W strict) 
       | _ => exact spec_settled_err _
     | model c => exact absurd (spec_tyAll_head hg).1.1.1.1 (by simp [NotModel])
 
+/-! ### syntactic sufficient conditions for `HashOut` -/
+
+theorem spec_hashOut_scalar {W : World} {strict : Bool} {s : String}
+    (h : ∀ d v, W.scalarLoad strict s d = .ok v → v.hashable = true) : HashOut W strict (.scalar s) := by
+  intro n d v hv
+  cases n with
+  | zero => cases hv
+  | succ n =>
+    simp only [specLoad] at hv
+    cases ho : W.scalarLoad strict s d <;> rw [ho] at hv <;> simp only [okVal] at hv <;> try cases hv
+    exact h d _ ho
+
+theorem spec_hashable_of_eq_atom {v d : Val} (hv : litAtom v = true) (he : Val.pyEq d v = true) :
+    d.hashable = true := by
+  cases v <;> simp [litAtom] at hv <;> cases d <;> simp [Val.pyEq] at he <;> simp [Val.hashable]
+
+theorem spec_hashOut_literal {W : World} {strict : Bool} {vals : List Val}
+    (h : ∀ v ∈ vals, litAtom v = true) : HashOut W strict (.literal vals) := by
+  intro n d v hv
+  cases n with
+  | zero => cases hv
+  | succ n =>
+    simp only [specLoad] at hv
+    split at hv
+    · rename_i hacc
+      cases hv
+      obtain ⟨w, hw, he, _⟩ := (spec_litAccepts_iff _ _ _).mp hacc
+      exact spec_hashable_of_eq_atom (h w hw) he
+    · cases hv
+
+theorem spec_hashOut_union {W : World} {strict : Bool} {cs : List Ty} {ks : List String}
+    (h : ∀ c ∈ cs, HashOut W strict c) : HashOut W strict (.union cs ks) := by
+  intro n d v hv
+  cases n with
+  | zero => cases hv
+  | succ n =>
+    simp only [specLoad] at hv
+    obtain ⟨pre, c, post, rfl, _, hc⟩ := spec_firstSome_some.mp hv
+    exact h c (by simp) n d v hc
+
+theorem spec_hashOut_tuple {W : World} {strict : Bool} {ts : List Ty}
+    (h : ∀ t ∈ ts, HashOut W strict t) : HashOut W strict (.tuple ts) := by
+  intro n d v hv
+  cases n with
+  | zero => cases hv
+  | succ n =>
+    simp only [specLoad] at hv
+    cases hacc : iterAccepts strict d with
+    | none => simp [hacc] at hv
+    | some xs =>
+      simp only [hacc] at hv
+      split at hv
+      · rename_i hlen
+        cases hz : allSome (zipWithOpt (fun t x => specLoad W strict n t x) ts xs) with
+        | none => simp [hz] at hv
+        | some ys =>
+          simp only [hz, Option.map_some, Option.some.injEq] at hv
+          subst hv
+          obtain ⟨hl, hq⟩ := (spec_zipWithOpt_some hlen).mp hz
+          simp only [Val.hashable]
+          refine spec_hashableAll_iff.mpr fun y hy => ?_
+          -- `y` is the image of some element under the loader of its type
+          have : ∃ q ∈ ts.zip (xs.zip ys), q.2.2 = y := by
+            obtain ⟨i, hi, rfl⟩ := List.getElem_of_mem hy
+            refine ⟨(ts[i]'(by omega), xs[i]'(by omega), ys[i]), ?_, rfl⟩
+            rw [List.mem_iff_getElem]
+            exact ⟨i, by simp; omega, by simp⟩
+          obtain ⟨q, hq', rfl⟩ := this
+          exact h q.1 (List.of_mem_zip hq').1 n q.2.1 q.2.2 (hq q hq')
+      · cases hv
+
+theorem spec_dedup_subset : ∀ {xs : List Val} {y : Val}, y ∈ Val.dedup xs → y ∈ xs
+  | [], _, h => by simp [Val.dedup] at h
+  | x :: xs, y, h => by
+    simp only [Val.dedup, List.mem_cons, List.mem_filter] at h
+    rcases h with rfl | ⟨h, _⟩
+    · simp
+    · exact List.mem_cons_of_mem _ (spec_dedup_subset h)
+
+theorem spec_hashOut_iter {W : World} {strict : Bool} {f : Factory} {dl : Bool} {e : Ty}
+    (hf : f = .tuple ∨ f = .frozenset) (h : HashOut W strict e) : HashOut W strict (.iter f dl e) := by
+  intro n d v hv
+  cases n with
+  | zero => cases hv
+  | succ n =>
+    simp only [specLoad] at hv
+    cases hacc : iterAccepts strict d with
+    | none => simp [hacc] at hv
+    | some xs =>
+      simp only [hacc] at hv
+      cases hmo : mapOpt (specLoad W strict n e) xs with
+      | none => simp [hmo] at hv
+      | some ys =>
+        simp only [hmo] at hv
+        have hys : ∀ y ∈ ys, y.hashable = true := by
+          intro y hy
+          obtain ⟨x, _, hx⟩ := spec_mapOpt_mem' hmo y hy
+          exact h n x y hx
+        rcases hf with rfl | rfl
+        · simp only [container, Option.some.injEq] at hv
+          subst hv
+          simp only [Val.hashable]
+          exact spec_hashableAll_iff.mpr hys
+        · simp only [container] at hv
+          split at hv
+          · cases hv
+            simp only [Val.hashable]
+            exact spec_hashableAll_iff.mpr fun y hy => hys y (spec_dedup_subset hy)
+          · cases hv
+
 end Adaptix.Morph
